@@ -17,10 +17,25 @@ def bl(a):
     return ' '.join(str(bits(x)) for x in np.asarray(a, dtype=float).ravel())
 
 
+class ToolFailure(Exception):
+    """the Lean driver process died without saying anything (killed, out of memory, ...): not a statement about the code"""
+
+
+def _run_driver_process(text):
+    import time as _t
+    last = None
+    for attempt in range(3):
+        p = subprocess.run(['lake', 'env', 'lean', '--run', 'QscModel/Driver.lean'], cwd=LEAN, input=text, capture_output=True, text=True)
+        if p.returncode == 0 or (p.returncode > 0 and p.stderr.strip()):
+            return p            # success, or a failure with a diagnostic (the model itself does not run: a broken tie)
+        last = p
+        _t.sleep(5 * (attempt + 1))
+    raise ToolFailure('Lean driver exited with code %r and no diagnostic, three times' % (last.returncode,))
+
+
 def run_hand(lines):
     """lines: list of 'hand ...' -> list of dict name -> list of raw tokens"""
-    p = subprocess.run(['lake', 'env', 'lean', '--run', 'QscModel/Driver.lean'], cwd=LEAN, input='\n'.join(lines) + '\n',
-                       capture_output=True, text=True)
+    p = _run_driver_process('\n'.join(lines) + '\n')
     if p.returncode != 0:
         raise RuntimeError('driver failed: ' + p.stderr[-2000:])
     blocks, cur = [], {}
